@@ -35,6 +35,23 @@ def prove (t : Node) (k : Key) : List Bytes :=
   | .empty => []
   | t => Rlp.encode (enc H t) :: proveBelow H (k.length + 1) t k
 
+mutual
+  /-- the encodings of all nodes strictly below `n` that are stored by hash -/
+  def allBelow : Node → List Bytes
+    | .short _ c => here H c ++ allBelow c
+    | .full cs => allBelowC cs
+    | _ => []
+  def allBelowC : Children → List Bytes
+    | .nil => []
+    | .cons n r => here H n ++ allBelow n ++ allBelowC r
+end
+
+/-- what `Commit` writes: the root node and every node stored by hash -/
+def commitNodes (t : Node) : List Bytes :=
+  match t with
+  | .empty => []
+  | t => Rlp.encode (enc H t) :: allBelow H t
+
 inductive Walk where
   | absent
   | found (v : Bytes)
